@@ -166,8 +166,10 @@ class ModSpec:
     postamble: str = ""
     state_decl: str = ""  # Lean text: the state structure and its environment operations (after enums and unions)
     preamble: str = ""
-    # hook tried first on Call / Attribute nodes: (fn, node, env, lines) -> (term, type) | None
+    # hook tried first on Call / Attribute / Subscript nodes: (fn, node, env, lines) -> (term, type) | None
     ext_expr: object = None
+    # hook tried first on every statement: (fn, stmt, env, lines) -> True when it translated the statement itself
+    stmt_hook: object = None
     # record-like classes of the repository handled as Lean structures: name -> {field: type}; declared in state_decl
     structs: dict = dataclasses.field(default_factory=dict)
     # qualified function name -> locals whose in-place attribute assignment may be translated as a copy although the object is
@@ -694,6 +696,8 @@ class Fn:
                 if isinstance(n, ast.Call):
                     if isinstance(n.func, ast.Attribute) and n.func.attr in ("hex",) and not n.args:
                         continue
+                    if isinstance(n.func, ast.Name) and n.func.id == "repr" and len(n.args) == 1 and isinstance(n.args[0], ast.Name):
+                        continue
                     raise Unsupported(f"{self.fs.qual}: logging call with a call in its arguments: {ast.unparse(call)[:80]}")
                 if isinstance(n, (ast.Subscript, ast.BinOp, ast.Await, ast.Yield, ast.NamedExpr)):
                     raise Unsupported(f"{self.fs.qual}: logging call with a computed argument: {ast.unparse(call)[:80]}")
@@ -709,6 +713,9 @@ class Fn:
                 i += 1
                 continue
             if isinstance(s, ast.Pass):
+                i += 1
+                continue
+            if self.tr.spec.stmt_hook is not None and self.tr.spec.stmt_hook(self, s, env, L):
                 i += 1
                 continue
             if self.is_logging(s):
@@ -1279,11 +1286,36 @@ class Fn:
         classes = []
         for h in s.handlers:
             if h.name:
-                raise Unsupported(f"{self.fs.qual}: `except ... as name`")
+                # the bound exception may only be looked at by logging calls (which are dropped)
+                for st_ in h.body:
+                    for n_ in ast.walk(st_):
+                        if isinstance(n_, ast.Name) and n_.id == h.name and not self.is_logging(st_):
+                            raise Unsupported(f"{self.fs.qual}: `except ... as {h.name}` whose handler uses the exception object")
             if h.type is None or (isinstance(h.type, ast.Name) and h.type.id == "Exception"):
                 classes = None
             elif isinstance(h.type, ast.Name) and classes is not None:
                 classes.append(h.type.id)
+            elif isinstance(h.type, (ast.Tuple, ast.Attribute)) and classes is not None:
+                # classes given by (dotted) name: resolved in the module's namespace; every subclass known to the interpreter is
+                # caught as well, so the scripted command layer may raise any of them
+                for el in (h.type.elts if isinstance(h.type, ast.Tuple) else [h.type]):
+                    try:
+                        obj = eval(ast.unparse(el), vars(self.tr.mod))  # noqa: S307
+                    except Exception:
+                        obj = None
+                    if not (isinstance(obj, type) and issubclass(obj, BaseException)):
+                        raise Unsupported(f"{self.fs.qual}: except clause {ast.unparse(el)[:40]}")
+                    todo, seen_ = [obj], []
+                    while todo:
+                        c_ = todo.pop()
+                        # (subclasses defined by the repository itself; what other loaded libraries derive from a builtin is
+                        # not something the command layer of bellows raises)
+                        if c_.__name__ not in seen_ and (c_ is obj or c_.__module__.startswith("bellows")):
+                            seen_.append(c_.__name__)
+                        todo += [x for x in c_.__subclasses__() if x.__name__ not in seen_ and x not in todo]
+                    for nm in sorted(seen_):
+                        if nm not in classes:
+                            classes.append(nm)
             else:
                 raise Unsupported(f"{self.fs.qual}: except clause {ast.unparse(h.type)[:40]}")
         if len(s.handlers) != 1:
@@ -1456,7 +1488,7 @@ class Fn:
                 return self.ex(node.value, env, L, stmt)
             finally:
                 self.awaiting = False
-        if isinstance(node, (ast.Call, ast.Attribute)) and tr.spec.ext_expr is not None:
+        if isinstance(node, (ast.Call, ast.Attribute, ast.Subscript)) and tr.spec.ext_expr is not None:
             r = tr.spec.ext_expr(self, node, env, L)
             if r is not None:
                 return r
@@ -1575,6 +1607,11 @@ class Fn:
     def attribute(self, node, env, L):
         tr = self.tr
         src = ast.unparse(node)
+        if self.is_state_method and src in tr.spec.state.attrs:
+            tmpl, ty = tr.spec.state.attrs[src]
+            tmp = tr.fresh("s")
+            L.append(f"let {tmp} ← PyM.get")
+            return tmpl.format(s=tmp), ty
         # member of a plain Enum emitted as an inductive
         if isinstance(node.value, ast.Name) and node.value.id in tr.spec.enums:
             return f"{node.value.id}.{node.attr}", ("enum", node.value.id)
@@ -2501,6 +2538,8 @@ def multicast_spec() -> ModSpec:
     )
 
     def ext(fn, node, env, L):
+        if not isinstance(node, (ast.Attribute, ast.Call)):
+            return None
         src = ast.unparse(node)
         if isinstance(node, ast.Attribute):
             if src == "t.sl_Status.OK":
@@ -2557,7 +2596,115 @@ def multicast_spec() -> ModSpec:
     )
 
 
-MODULES = {"Ash": ash_spec, "Uart": uart_spec, "Mcast": multicast_spec}
+# --------------------------------------------------------------------------- bellows/zigbee/application.py: _watchdog_feed
+
+WD_STATE_DECL = """/-- what an awaited call of the feed does -/
+inductive WResp
+  | ok                                   -- nop / read_counters / read_and_clear_counters answered
+  | buffers (v : Option Nat)             -- _get_free_buffers -> the count, or None
+  | raises (cls : String)                -- the call raises
+deriving Repr, DecidableEq
+
+/-- calls made, in program order -/
+inductive WEv
+  | nop | readCounters | readAndClearCounters | getFreeBuffers
+  | countersUpdate                       -- the loop that folds the answer into zigpy's counters
+  | countersReset
+  | buffersSet (v : Option Nat)
+  | watchdogCounterIncrement
+deriving Repr, DecidableEq
+
+structure WdApp where
+  version : Nat := 8                     -- self._ezsp.ezsp_version
+  feed_counter : Nat := 0                -- _watchdog_feed_counter
+  failures : Nat := 0                    -- _watchdog_failures
+  script : List WResp := []
+  trace : List WEv := []
+deriving Repr, DecidableEq
+
+def wemit (e : WEv) : PyM WdApp Unit := PyM.modify fun s => { s with trace := s.trace ++ [e] }
+
+def wcall (e : WEv) : PyM WdApp WResp := fun s =>
+  match s.script with
+  | [] => (.error (.unsupported "script exhausted"), { s with trace := s.trace ++ [e] })
+  | .raises c :: rest => (.error (.raised c), { s with trace := s.trace ++ [e], script := rest })
+  | r :: rest => (.ok r, { s with trace := s.trace ++ [e], script := rest })
+
+def WResp.asUnit : WResp → Except PyErr Unit
+  | .ok => .ok ()
+  | _ => .error (.unsupported "response of another call")
+def WResp.asBuffers : WResp → Except PyErr (Option Nat)
+  | .buffers v => .ok v
+  | _ => .error (.unsupported "response of another call")
+"""
+
+# statements of _watchdog_feed that only touch zigpy's counter objects: pinned by their text (a change makes the translation fail,
+# which is reported), each stands for one recorded event; zigpy's counters are modelled, not verified
+WD_PINNED = {
+    "for cnt_type, value in current_counters.items():\n    counters[cnt_type.name[8:]].update(value)": "wemit .countersUpdate",
+    "counters.reset()": "wemit .countersReset",
+    "cnt = counters[COUNTER_EZSP_BUFFERS]": None,
+    "cnt._raw_value = free_buffers": "wemit (.buffersSet free_buffers)",
+    "cnt._last_reset_value = 0": None,
+    "self.state.counters[COUNTERS_CTRL][COUNTER_WATCHDOG].increment()": "wemit .watchdogCounterIncrement",
+    "counters = self.state.counters[COUNTERS_EZSP]": None,
+}
+
+
+def watchdog_spec() -> ModSpec:
+    OPAQUE = ("lean", "Unit")
+
+    def acall(ev, unpack, rty):
+        def h(fn, node, env, L):
+            if not getattr(fn, "awaiting", False):
+                raise Unsupported("call without await")
+            if node.args or node.keywords:
+                raise Unsupported("keep-alive call with arguments")
+            r = fn.tr.fresh("resp")
+            L.append(f"let {r} ← wcall .{ev}")
+            v = fn.tr.fresh("v")
+            L.append(f"let {v} ← PyM.lift (WResp.{unpack} {r})")
+            return v, rty
+        return h
+
+    st = StateSpec(
+        pyclass="ControllerApplication", lean="WdApp",
+        fields={
+            "_watchdog_feed_counter": ("feed_counter", NAT),
+            "_watchdog_failures": ("failures", NAT),
+        },
+        attrs={"self._ezsp.ezsp_version": ("{s}.version", NAT)},
+        calls={
+            "self._ezsp.nop": acall("nop", "asUnit", UNIT),
+            "self._ezsp.read_counters": acall("readCounters", "asUnit", OPAQUE),
+            "self._ezsp.read_and_clear_counters": acall("readAndClearCounters", "asUnit", OPAQUE),
+            "self._get_free_buffers": acall("getFreeBuffers", "asBuffers", opt(NAT)),
+        },
+    )
+
+    def stmt_hook(fn, s, env, L):
+        txt = ast.unparse(s)
+        if txt in WD_PINNED:
+            ev = WD_PINNED[txt]
+            if ev:
+                L.append(ev)
+            return True
+        return False
+
+    return ModSpec(
+        module="bellows.zigbee.application",
+        ns="BV.Src.Wd",
+        imports=["BV.Py.Prelude"],
+        opens=["BV.Py"],
+        unions={},
+        fns=[FnSpec("ControllerApplication._watchdog_feed", ret=UNIT, allow_async=True, lean_name="watchdog_feed")],
+        state=st,
+        stmt_hook=stmt_hook,
+        state_decl=WD_STATE_DECL,
+    )
+
+
+MODULES = {"Ash": ash_spec, "Uart": uart_spec, "Mcast": multicast_spec, "Wd": watchdog_spec}
 
 
 def translate_module(spec: ModSpec):
